@@ -439,6 +439,12 @@ func runC19(c *core.Ctx) {
 				bounds = append(bounds, ro+(frames-ro)*wI/W)
 			}
 			bounds = append(bounds, frames)
+			if W >= 2 && ci%3 == 0 {
+				// one writer's frame range is empty (its window has length 0 and the
+				// other writers' frames as spare capacity behind it)
+				bounds[1] = bounds[0]
+				c.Obs("configurations_with_a_writer_on_an_empty_frame_range", 1)
+			}
 			shared := mk()
 			seq := mk()
 			wantR := make([]uint64, R)
